@@ -13,8 +13,10 @@ namespace Sm.DriverSbt
 
 open Sm.Proto Sm.SBT
 
-/-- the tree and the scaled value of its sketches -/
-abbrev St := Option (Tree × Nat)
+/-- the tree, the scaled value of its sketches, and the image of the last `save` to another
+location (`saveas`).  `SBT.save` leaves the in-memory tree as it was: node contents, the storage a
+node was loaded from and its dirty flag are untouched -/
+abbrev St := Option (Tree × Nat × Option Image)
 
 def init : St := none
 
@@ -69,16 +71,16 @@ def probe (t : Tree) (hs : List Nat) : String :=
     | some n => s!"{p}={(n.data t.sizes).matchCount hs}"
     | none => ""))
 
-def fin (st : St) (sT : Nat) (r : Except Err Tree) : St × String :=
+def fin (st : St) (sT : Nat) (sv : Option Image) (r : Except Err Tree) : St × String :=
   match r with
-  | .ok t => (some (t, sT), "ok")
+  | .ok t => (some (t, sT, sv), "ok")
   | .error e => (st, "err " ++ e.name)
 
-def doSearch (st : St) (t : Tree) (sT : Nat) (q : Query) : St × String :=
+def doSearch (st : St) (t : Tree) (sT : Nat) (sv : Option Image) (q : Query) : St × String :=
   if t.leaves.isEmpty then (st, "err RuntimeError") else
   match search fixed keep t q with
-  | (t', .ok ls) => (some (t', sT), "ok " ++ joinNats ((ls.map (·.id)).mergeSort (· ≤ ·)))
-  | (t', .error e) => (some (t', sT), "err " ++ e.name)
+  | (t', .ok ls) => (some (t', sT, sv), "ok " ++ joinNats ((ls.map (·.id)).mergeSort (· ≤ ·)))
+  | (t', .error e) => (some (t', sT, sv), "err " ++ e.name)
 
 def step (st : St) (line : String) : St × String :=
   let bad := (st, "bad-op")
@@ -90,52 +92,67 @@ def step (st : St) (line : String) : St × String :=
       let sT := match rest with | [s] => s | _ => 1
       if bf = 0 ∨ sT = 0 ∨ rest.length > 1 then bad else
       let sizes := NG.tableSizes bf nt
-      (some (Tree.new d sizes, sT), s!"ok sizes={joinNats sizes}")
+      (some (Tree.new d sizes, sT, none), s!"ok sizes={joinNats sizes}")
     | _, _ => bad
   | "ins" :: id :: hs =>
     match st, nat? id, nats? hs with
-    | some (t, sT), some id, some hs =>
+    | some (t, sT, sv), some id, some hs =>
       match addNode fixed pre t ⟨id, keepBelow sT (sortDedup hs)⟩ with
       | .ok t' =>
         let pos := match t'.leaves.find? (fun kv => kv.2.id = id) with
           | some kv => toString kv.1
           | none => "-"
-        (some (t', sT), s!"ok n={t'.leaves.length} pos={pos}")
+        (some (t', sT, sv), s!"ok n={t'.leaves.length} pos={pos}")
       | .error e => (st, "err " ++ e.name)
     | _, _, _ => bad
   | ["dump"] =>
     match st with
-    | some (t, _) => (st, dump t)
+    | some (t, _, _) => (st, dump t)
     | none => bad
   | "probe" :: hs =>
     match st, nats? hs with
-    | some (t, _), some hs => (st, probe t (sortDedup hs))
+    | some (t, _, _), some hs => (st, probe t (sortDedup hs))
     | _, _ => bad
   | ["saveload", sp, seed, ver, cache] =>
     match st, nats? [sp, seed, ver, cache] with
-    | some (t, sT), some [sp, seed, ver, cache] =>
+    | some (t, sT, sv), some [sp, seed, ver, cache] =>
       if ver < 1 ∨ ver > 6 then bad else
       let im := save t (fun p => drawAt seed p ≤ sp)
       let cm := if cache = 0 then none else some cache
       if ver ≤ 2 then
         if im.leaves.isEmpty then (st, "err ValueError")
         else if ver = 1 ∧ im.d ≠ 2 then bad
-        else fin st sT (loadLegacy fixed legacyFills im cm)
-      else fin st sT (load fixed im ver cm)
+        else fin st sT sv (loadLegacy fixed legacyFills im cm)
+      else fin st sT sv (load fixed im ver cm)
+    | _, _ => bad
+  | ["saveas", sp, seed, _fmt] =>
+    -- save to another location; the in-memory tree stays in use, unchanged
+    match st, nats? [sp, seed] with
+    | some (t, sT, _), some [sp, seed] =>
+      let (t', im) := saveElsewhere t (fun p => drawAt seed p ≤ sp)
+      (some (t', sT, some im), "ok")
+    | _, _ => bad
+  | ["checksaved", cache] =>
+    -- load the copy written by the last `saveas` (index version 6) and walk it; the tree in use is not replaced
+    match st, nat? cache with
+    | some (_, _, some im), some cache =>
+      match load fixed im 6 (if cache = 0 then none else some cache) with
+      | .ok t2 => (st, dump t2)
+      | .error e => (st, "err " ++ e.name)
     | _, _ => bad
   | "search" :: c :: thr :: hs =>
     match st, nat? c, nat? thr, nats? hs with
-    | some (t, sT), some c, some thr, some hs =>
-      if c > 1 then bad else doSearch st t sT (mkQuery c thr sT sT (sortDedup hs))
+    | some (t, sT, sv), some c, some thr, some hs =>
+      if c > 1 then bad else doSearch st t sT sv (mkQuery c thr sT sT (sortDedup hs))
     | _, _, _, _ => bad
   | "searchs" :: c :: thr :: sQ :: hs =>
     match st, nats? [c, thr, sQ], nats? hs with
-    | some (t, sT), some [c, thr, sQ], some hs =>
-      if c > 2 ∨ sQ = 0 then bad else doSearch st t sT (mkQuery c thr sT sQ (sortDedup hs))
+    | some (t, sT, sv), some [c, thr, sQ], some hs =>
+      if c > 2 ∨ sQ = 0 then bad else doSearch st t sT sv (mkQuery c thr sT sQ (sortDedup hs))
     | _, _, _ => bad
   | ["select", ks, sc, cont] =>
     match st, nats? [ks, sc], bool? cont with
-    | some (t, sT), some [ks, sc], some cont =>
+    | some (t, sT, sv), some [ks, sc], some cont =>
       if t.leaves.isEmpty then (st, if selectEmptyOk then "ok" else "err StopIteration")
       else if ks ≠ 21 then (st, "err ValueError")
       else if sc > sT ∧ !cont then (st, "err ValueError")
@@ -143,21 +160,21 @@ def step (st : St) (line : String) : St × String :=
     | _, _, _ => bad
   | ["rebuild", p] =>
     match st, nat? p with
-    | some (t, sT), some p => fin st sT (rebuild fixed t.rebuildFuel t p)
+    | some (t, sT, sv), some p => fin st sT sv (rebuild fixed t.rebuildFuel t p)
     | _, _ => bad
   | ["rebuildm", k] =>
     match st, nat? k with
-    | some (t, sT), some k =>
+    | some (t, sT, sv), some k =>
       let ms := (sortDesc t.missing).reverse
-      if ms.isEmpty then (st, "ok") else fin st sT (rebuild fixed t.rebuildFuel t (ms.getD (k % ms.length) 0))
+      if ms.isEmpty then (st, "ok") else fin st sT sv (rebuild fixed t.rebuildFuel t (ms.getD (k % ms.length) 0))
     | _, _ => bad
   | ["fillint"] =>
     match st with
-    | some (t, sT) => fin st sT (fillInternal fixed t)
+    | some (t, sT, sv) => fin st sT sv (fillInternal fixed t)
     | none => bad
   | ["fillmin"] =>
     match st with
-    | some (t, sT) => fin st sT (fillMinNBelow fixed t)
+    | some (t, sT, sv) => fin st sT sv (fillMinNBelow fixed t)
     | none => bad
   | _ => bad
 
